@@ -154,10 +154,20 @@ func runC18(c *Ctx) {
 			return true
 		})
 		if rf == nil {
+			// the framed reader is also recognised by its shape: a length parsed by strconv sizes a byte buffer
+			if mkb, how := framedBodyBuffer(info, fd); mkb != nil {
+				foundR = true
+				if how == "io.ReadAtLeast" || inLoopUse(info, fd, mkb) {
+					c.ok("C18.R3", funcKey(p, fd)+"|body-read-in-full", c.pos(mkb.Pos()), "the frame body is read by "+how+" (io.ReadAtLeast or a read loop; the loop's termination is not analysed)")
+					continue
+				}
+				c.viol("C18.R3", funcKey(p, fd)+"|body-read-in-full", c.pos(mkb.Pos()), "the frame body buffer make([]byte, <parsed length>) is filled by "+how+" and not by io.ReadFull: a body that arrives in several chunks is decoded truncated and the rest of it is parsed as the next header")
+			}
 			continue
 		}
 		foundR = true
 		key := funcKey(p, fd)
+		c.ok("C18.R3", key+"|body-read-in-full", c.pos(rf.Pos()), "the frame body is read with io.ReadFull")
 		fc := newFnCFG(fd.Body, info)
 		// buffer = make([]byte, length)
 		var bufObj, lenObj types.Object
@@ -507,4 +517,90 @@ func reachesStreamWrite(c *Ctx, p interface{}, fn *types.Func, stream types.Type
 		return res
 	}
 	return false
+}
+
+// framedBodyBuffer finds `buf := make([]byte, n)` where n was assigned from a strconv call, and describes the
+// call the buffer is handed to.
+func framedBodyBuffer(info *types.Info, fd *ast.FuncDecl) (*ast.CallExpr, string) {
+	parsed := map[types.Object]bool{}
+	ast.Inspect(fd.Body, func(n ast.Node) bool {
+		if as, ok := n.(*ast.AssignStmt); ok && len(as.Rhs) == 1 && len(as.Lhs) >= 1 {
+			if call, ok := as.Rhs[0].(*ast.CallExpr); ok {
+				if fn := calleeOf(info, call); fn != nil && strings.HasPrefix(fullName(fn), "strconv.") {
+					if id, ok := as.Lhs[0].(*ast.Ident); ok {
+						parsed[info.ObjectOf(id)] = true
+					}
+				}
+			}
+		}
+		return true
+	})
+	var mk *ast.CallExpr
+	var buf types.Object
+	ast.Inspect(fd.Body, func(n ast.Node) bool {
+		if as, ok := n.(*ast.AssignStmt); ok && len(as.Lhs) == 1 && len(as.Rhs) == 1 {
+			if call, ok := as.Rhs[0].(*ast.CallExpr); ok {
+				if id, ok := call.Fun.(*ast.Ident); ok && id.Name == "make" && len(call.Args) == 2 {
+					if aid, ok := ast.Unparen(call.Args[1]).(*ast.Ident); ok && parsed[info.ObjectOf(aid)] {
+						mk = call
+						if lid, ok := as.Lhs[0].(*ast.Ident); ok {
+							buf = info.ObjectOf(lid)
+						}
+					}
+				}
+			}
+		}
+		return true
+	})
+	if mk == nil {
+		return nil, ""
+	}
+	how := "no call"
+	ast.Inspect(fd.Body, func(n ast.Node) bool {
+		if call, ok := n.(*ast.CallExpr); ok && call != mk {
+			for _, a := range call.Args {
+				if id, ok := ast.Unparen(a).(*ast.Ident); ok && info.ObjectOf(id) == buf && how == "no call" {
+					how = types.ExprString(call.Fun)
+				}
+			}
+		}
+		return true
+	})
+	return mk, how
+}
+
+// inLoopUse: the buffer sized by mk is handed to a call inside a for statement (a hand-written read-until-full loop).
+func inLoopUse(info *types.Info, fd *ast.FuncDecl, mk *ast.CallExpr) bool {
+	var buf types.Object
+	ast.Inspect(fd.Body, func(n ast.Node) bool {
+		if as, ok := n.(*ast.AssignStmt); ok && len(as.Rhs) == 1 && as.Rhs[0] == ast.Expr(mk) {
+			if id, ok := as.Lhs[0].(*ast.Ident); ok {
+				buf = info.ObjectOf(id)
+			}
+		}
+		return true
+	})
+	found := false
+	ast.Inspect(fd.Body, func(n ast.Node) bool {
+		fs, ok := n.(*ast.ForStmt)
+		if !ok {
+			return true
+		}
+		ast.Inspect(fs.Body, func(m ast.Node) bool {
+			if call, ok := m.(*ast.CallExpr); ok {
+				for _, a := range call.Args {
+					root := a
+					if sl, ok := ast.Unparen(a).(*ast.SliceExpr); ok {
+						root = sl.X
+					}
+					if id, ok := ast.Unparen(root).(*ast.Ident); ok && info.ObjectOf(id) == buf {
+						found = true
+					}
+				}
+			}
+			return true
+		})
+		return true
+	})
+	return found
 }
